@@ -52,6 +52,7 @@ func runC13(p *core.Program, r *core.Report) {
 	a10Report(p, r, "R5", "pkg/types")
 	c13R6(p, r)
 	c13R11(p, r)
+	c13R12(p, r)
 	c13R7(p, r)
 	c13R9(p, r)
 	c13R8(p, r)
